@@ -142,6 +142,17 @@ class ValueException(ODataException):
         super().__init__(f"Invalid value: {value}")
 
 
+class UnsupportedNodeException(ODataException):
+    """
+    Thrown when a visitor cannot translate a part of the query, e.g. a
+    relationship traversal for a backend without relationships.
+    """
+
+    def __init__(self, node_type: str):
+        self.node_type = node_type
+        super().__init__(f"'{node_type}' expressions are not supported here.")
+
+
 class InvalidFieldException(ODataException):
     """
     Thrown when a field mentioned in a query does not exist.
